@@ -166,6 +166,7 @@ Proof.
                                           header <= dat <= header + 32 /\ header <= zlen d + 32).
   { destruct (af_header fm) as [h|] eqn:Eh.
     - destruct Hh as [Hh|Hh]; [discriminate|]. inversion Hh; subst h.
+      pstep. apply get_size_spec; [unfold c04_two63; lia|].
       psteps; lia.
     - destruct (af_footer fm) as [f|] eqn:Ef; [|pstep].
       pstep. destruct ((flags / ape_HAS_HEADER) mod 2 =? 1); lia. }
